@@ -20,8 +20,8 @@ open Demes Demes.Ms Demes.Spec Demes.Spec.C07 Demes.Spec.C09
 open Demes.Spec.MsSem (Cmd Parsed isMove)
 open Demes.Spec.C08 (groupOps groupOpsAux flushOp isSplitC cmdGroups Tame')
 open Demes.Proofs.ToMs
-open Demes.Proofs.MsRT (dpMoves pulsesTame_inGen_of_valid)
-open Demes.Proofs.MsAcc (FragEv fragEv_scale fragEv_rawEvs scale_join_inv scale_size_inv dpMoves_irrefl)
+open Demes.Proofs.MsRT (dpMoves pulsesTame_inGen_of_valid pulsesBelowOne_of_tame pulsesBelowOne_inGen_of_valid)
+open Demes.Proofs.MsAcc (FragEv fragEv_scale fragEv_rawEvs fragEv_rawEvs3 scale_join_inv scale_size_inv dpMoves_irrefl)
 
 /-! ### the options of the fragment -/
 
@@ -179,17 +179,17 @@ theorem noSizeAtJoinG_of (gv : Growth → Q) {grp : List (Event Growth)}
 
 section
 variable (gv : Growth → Q) {g : Graph} (c : Clauses g) (hx : MsExpressible g = true)
-  (hpt : PulsesTame g = true) {N0 : Q} (hN : 0 < N0)
-include c hx hpt hN
+  (hpb : PulsesBelowOne g = true) {N0 : Q} (hN : 0 < N0)
+include c hx hpb hN
 
 /-- every option of the command is a `fragCmdV` -/
-theorem fragCmd_finalEvs {e : Event Growth} (he : e ∈ finalEvs g N0) : fragCmdV (cmdOfV gv e) = true := by
+theorem fragCmd_finalEvs3 {e : Event Growth} (he : e ∈ finalEvs g N0) : fragCmdV (cmdOfV gv e) = true := by
   refine fragCmd_of gv (evG_finalEvs c hx hN e he) ?_
   obtain ⟨e', he', rfl⟩ := List.mem_map.1 he
-  exact fragEv_scale N0 (fragEv_rawEvs c hx hpt hN ((mem_sortBy _).1 he'))
+  exact fragEv_scale N0 (fragEv_rawEvs3 c hx hpb hN ((mem_sortBy _).1 he'))
 
 /-- one time group of the command, read after the options `pre` -/
-theorem groupFrag_group {pre grp post : List (Event Growth)} (hF : finalEvs g N0 = pre ++ grp ++ post)
+theorem groupFrag_group3 {pre grp post : List (Event Growth)} (hF : finalEvs g N0 = pre ++ grp ++ post)
     (hne : grp ≠ []) (hsame : ∀ a ∈ grp, ∀ b ∈ grp, evT a = evT b)
     (hpre : ∀ a ∈ pre, ∀ b ∈ grp, evT a < evT b) (hpost : ∀ a ∈ grp, ∀ b ∈ post, evT a < evT b) :
     groupFragV (g.demes.length + ((pre.map (cmdOfV gv)).filter isSplitC).length) (grp.map (cmdOfV gv)) = true := by
@@ -222,7 +222,7 @@ theorem groupFrag_group {pre grp post : List (Event Growth)} (hF : finalEvs g N0
   · rw [List.all_eq_true]
     intro cm hcm
     obtain ⟨e, he, rfl⟩ := List.mem_map.1 hcm
-    exact fragCmd_finalEvs gv c hx hpt hN (hmem e he)
+    exact fragCmd_finalEvs3 gv c hx hpb hN (hmem e he)
   · apply noSizeAtJoinG_of
     · intro a ha b hb t t' i j i' x r hja hsb hii
       exact size_join_time c hx hN (hmem a ha) (hmem b hb) hja hsb hii (hsame a ha b hb)
@@ -238,7 +238,7 @@ theorem groupFrag_group {pre grp post : List (Event Growth)} (hF : finalEvs g N0
     exact (goodXs_dps c).mem x (List.mem_filter.1 hx').1
 
 /-- the time groups `G`, read after the options `pre` -/
-theorem groupsFrag_groups : ∀ (G : List (List (Event Growth))) (pre : List (Event Growth)),
+theorem groupsFrag_groups3 : ∀ (G : List (List (Event Growth))) (pre : List (Event Growth)),
     finalEvs g N0 = pre ++ G.flatten → GroupsOK G →
     (∀ a ∈ pre, ∀ grp ∈ G, ∀ b ∈ grp, evT a < evT b) →
     groupsFragV (g.demes.length + ((pre.map (cmdOfV gv)).filter isSplitC).length) (G.map (List.map (cmdOfV gv))) = true
@@ -251,9 +251,9 @@ theorem groupsFrag_groups : ∀ (G : List (List (Event Growth))) (pre : List (Ev
       intro a ha b hb
       obtain ⟨g2, hg2, hb2⟩ := List.mem_flatten.1 hb
       exact hinc.1 g2 hg2 a ha b hb2
-    have h1 := groupFrag_group gv c hx hpt hN hF' hne hsame
+    have h1 := groupFrag_group3 gv c hx hpb hN hF' hne hsame
       (fun a ha b hb => hsep a ha grp List.mem_cons_self b hb) hpost
-    have h2 := groupsFrag_groups rest (pre ++ grp) (by rw [hF'])
+    have h2 := groupsFrag_groups3 rest (pre ++ grp) (by rw [hF'])
       ⟨hinc.2, fun g2 hg2 => hok.same g2 (List.mem_cons_of_mem _ hg2)⟩ (by
         intro a ha g2 hg2 b hb
         rcases List.mem_append.1 ha with ha | ha
@@ -265,10 +265,36 @@ theorem groupsFrag_groups : ∀ (G : List (List (Event Growth))) (pre : List (Ev
 
 end
 
-/-- every time group of the command `to_ms` prints for a valid ms-expressible graph with tame
-pulses satisfies `groupFragV` -/
-theorem groupsFrag_finalEvsV (gv : Growth → Q) {g : Graph} (c : ToMs.Clauses g) (hx : MsExpressible g = true)
-    (hpt : PulsesTame g = true) {N0 : Q} (hN : 0 < N0) (samples : Option (List Int)) :
+/-! the same from `PulsesTame` -/
+section
+variable (gv : Growth → Q) {g : Graph} (c : Clauses g) (hx : MsExpressible g = true)
+  (hpt : PulsesTame g = true) {N0 : Q} (hN : 0 < N0)
+include c hx hpt hN
+
+/-- every option of the command is a `fragCmdV` -/
+theorem fragCmd_finalEvs {e : Event Growth} (he : e ∈ finalEvs g N0) : fragCmdV (cmdOfV gv e) = true :=
+  fragCmd_finalEvs3 gv c hx (pulsesBelowOne_of_tame hpt) hN he
+
+/-- one time group of the command, read after the options `pre` -/
+theorem groupFrag_group {pre grp post : List (Event Growth)} (hF : finalEvs g N0 = pre ++ grp ++ post)
+    (hne : grp ≠ []) (hsame : ∀ a ∈ grp, ∀ b ∈ grp, evT a = evT b)
+    (hpre : ∀ a ∈ pre, ∀ b ∈ grp, evT a < evT b) (hpost : ∀ a ∈ grp, ∀ b ∈ post, evT a < evT b) :
+    groupFragV (g.demes.length + ((pre.map (cmdOfV gv)).filter isSplitC).length) (grp.map (cmdOfV gv)) = true :=
+  groupFrag_group3 gv c hx (pulsesBelowOne_of_tame hpt) hN hF hne hsame hpre hpost
+
+/-- the time groups `G`, read after the options `pre` -/
+theorem groupsFrag_groups : ∀ (G : List (List (Event Growth))) (pre : List (Event Growth)),
+    finalEvs g N0 = pre ++ G.flatten → GroupsOK G →
+    (∀ a ∈ pre, ∀ grp ∈ G, ∀ b ∈ grp, evT a < evT b) →
+    groupsFragV (g.demes.length + ((pre.map (cmdOfV gv)).filter isSplitC).length) (G.map (List.map (cmdOfV gv))) = true :=
+  groupsFrag_groups3 gv c hx (pulsesBelowOne_of_tame hpt) hN
+
+end
+
+/-- every time group of the command `to_ms` prints for a valid ms-expressible graph whose pulse proportions are
+below one satisfies `groupFragV` -/
+theorem groupsFrag_finalEvsV3 (gv : Growth → Q) {g : Graph} (c : ToMs.Clauses g) (hx : MsExpressible g = true)
+    (hpb : PulsesBelowOne g = true) {N0 : Q} (hN : 0 < N0) (samples : Option (List Int)) :
     groupsFragV (prOfV gv (ToMs.headerOf g samples) (ToMs.finalEvs g N0)).npop
       (Demes.Spec.C08.cmdGroups (prOfV gv (ToMs.headerOf g samples) (ToMs.finalEvs g N0))) = true := by
   have hn : (prOfV gv (headerOf g samples) (finalEvs g N0)).npop = g.demes.length := by
@@ -279,10 +305,29 @@ theorem groupsFrag_finalEvsV (gv : Growth → Q) {g : Graph} (c : ToMs.Clauses g
     · simp [h1]
     · simp [h1]; omega
   rw [hn, cmdGroups_prOfV gv _ _ (evG_finalEvs c hx hN) (sorted_finalEvs c hx hN)]
-  have := groupsFrag_groups gv c hx hpt hN (groupsByTime (finalEvs g N0)) []
+  have := groupsFrag_groups3 gv c hx hpb hN (groupsByTime (finalEvs g N0)) []
     (by rw [flatten_groupsByTime]; rfl) (groupsOK_groupsByTime _ (sorted_byQ_finalEvs c hx hN))
     (fun a ha => by cases ha)
   simpa using this
+
+/-- every time group of the command `to_ms` prints for a valid ms-expressible graph with tame
+pulses satisfies `groupFragV` -/
+theorem groupsFrag_finalEvsV (gv : Growth → Q) {g : Graph} (c : ToMs.Clauses g) (hx : MsExpressible g = true)
+    (hpt : PulsesTame g = true) {N0 : Q} (hN : 0 < N0) (samples : Option (List Int)) :
+    groupsFragV (prOfV gv (ToMs.headerOf g samples) (ToMs.finalEvs g N0)).npop
+      (Demes.Spec.C08.cmdGroups (prOfV gv (ToMs.headerOf g samples) (ToMs.finalEvs g N0))) = true :=
+  groupsFrag_finalEvsV3 gv c hx (pulsesBelowOne_of_tame hpt) hN samples
+
+/-- `groupsFrag_finalEvsV3` for the command of `to_ms graph`: hypotheses on the graph itself, `PulsesBelowOne`
+instead of `PulsesTame` -/
+theorem groupsFrag_toMsV3 (gv : Growth → Q) {graph : Graph} (hv : validGraph graph = true)
+    (hx : MsExpressible graph = true) (hpb : PulsesBelowOne graph = true) {N0 : Q} (hN : 0 < N0)
+    (samples : Option (List Int)) :
+    groupsFragV (prOfV gv (ToMs.headerOf (inGenerations graph) samples) (ToMs.finalEvs (inGenerations graph) N0)).npop
+      (Demes.Spec.C08.cmdGroups (prOfV gv (ToMs.headerOf (inGenerations graph) samples) (ToMs.finalEvs (inGenerations graph) N0)))
+        = true :=
+  groupsFrag_finalEvsV3 gv (clauses_of_valid (InGen.inGenerations_valid graph hv)) (by rw [expr_inGen]; exact hx)
+    (by rw [pulsesBelowOne_inGen_of_valid hv]; exact hpb) hN samples
 
 /-- `groupsFrag_finalEvsV` for the command of `to_ms graph`: hypotheses on the graph itself -/
 theorem groupsFrag_toMsV (gv : Growth → Q) {graph : Graph} (hv : validGraph graph = true) (hx : MsExpressible graph = true)
@@ -290,8 +335,7 @@ theorem groupsFrag_toMsV (gv : Growth → Q) {graph : Graph} (hv : validGraph gr
     groupsFragV (prOfV gv (ToMs.headerOf (inGenerations graph) samples) (ToMs.finalEvs (inGenerations graph) N0)).npop
       (Demes.Spec.C08.cmdGroups (prOfV gv (ToMs.headerOf (inGenerations graph) samples) (ToMs.finalEvs (inGenerations graph) N0)))
         = true :=
-  groupsFrag_finalEvsV gv (clauses_of_valid (InGen.inGenerations_valid graph hv)) (by rw [expr_inGen]; exact hx)
-    (by rw [pulsesTame_inGen_of_valid hv]; exact hpt) hN samples
+  groupsFrag_toMsV3 gv hv hx (pulsesBelowOne_of_tame hpt) hN samples
 
 /-! ### non-vacuity -/
 
@@ -413,5 +457,6 @@ example : groupsFragV 2 [[.setSize 0 1 0 false]] = false := by decide +kernel
 #print axioms groupFrag_group
 #print axioms groupsFrag_finalEvsV
 #print axioms groupsFrag_toMsV
+#print axioms groupsFrag_toMsV3
 
 end Demes.Proofs.MsGrow
